@@ -576,6 +576,37 @@ def r5(ctx, facts):
         raise AnchorLost("expected get_network_strategy_replicas in choose / next / into_iter, found %d" % n_req)
 
 
+def r6(ctx, facts):
+    r = ctx.rule("R6", "the rack count of a datacenter and the NTS walker agree on what a rack is: a node without a rack name forms a rack of its own in both", floor=2)
+    b = facts.one(r"^%sreplication_info::ReplicationInfo::new$" % L)
+    n = 0
+    for bb in sorted(b.live_blocks):
+        for st in b.stmts(bb):
+            if st[0] == "A" and st[2][0] == "agg" and st[2][1][0] == "adt" and st[2][1][1].endswith("DatacenterNodes") and "rack_count" in (st[2][1][4] or []):
+                n += 1
+                op = st[2][2][st[2][1][4].index("rack_count")]
+                _, cs, bins = field_slice(b, op)
+                nms = [(c.decl or c.name or "").split("::")[-1] for c in cs]
+                dropping = sorted({x for x in nms if x in ("filter_map", "flatten", "filter", "flat_map", "skip_while", "take_while", "map_while", "flatten_ok")})
+                r.instance("rack-count-keeps-rackless-nodes", not dropping and not bins,
+                           "rack_count is computed through %s: nodes without a rack name drop out of the count, while the NTS walker treats `None` as a rack of its own - the walker then "
+                           "believes one rack repeat more is allowed and takes a second node of a used rack before every rack has one" % (dropping or [x[1] for x in bins]), b.stmt_span(st))
+                r.instance("rack-count-is-a-distinct-count", any(x in nms for x in ("unique", "unique_by", "len", "count", "collect", "dedup")) and ("count" in nms or "len" in nms),
+                           "rack_count must be the number of DISTINCT rack values of the datacenter's nodes (derives from %s)" % sorted(set(nms)), b.stmt_span(st))
+    if n == 0:
+        raise AnchorLost("ReplicationInfo::new: no DatacenterNodes aggregate with a rack_count found")
+    # the walker's side: the rack key it records is the node's Option rack, unfiltered
+    wb = facts.one(r"<%sreplication_info::NtsReplicasInDatacenterIterator<.*> as core::iter::traits::iterator::Iterator>::next$" % L)
+    ins = [c for c in wb.calls_to("BTreeSet::<T, A>::insert", "HashSet::<T, S>::insert", "BTreeSet::<T, A>::contains", "HashSet::<T, S>::contains")]
+    okw = bool(ins)
+    for c in ins:
+        arg = c.args[1]
+        ty = wb.local_ty(arg[1][0]) if arg[0] in ("c", "m") else ""
+        if "Option<" not in ty:
+            okw = False
+    r.instance("walker-keys-racks-by-option", okw, "the walker must key its used-rack set by the node's Option<rack> (None included)", wb.span)
+
+
 def _mentions_field(b, seen, name):
     locs = {l for l, _ in seen}
     for bb in b.live_blocks:
@@ -589,7 +620,7 @@ def _mentions_field(b, seen, name):
 
 def check(ctx):
     facts = inline_view(ctx.facts("default"))
-    for fn in (r1, r2, r3, r4, r5):
+    for fn in (r1, r2, r3, r4, r5, r6):
         try:
             fn(ctx, facts)
         except AnchorLost as ex:
